@@ -485,3 +485,15 @@ func init() {
 		},
 	})
 }
+
+func init() {
+	replayDrivers = append(replayDrivers, replayDriver{
+		match: func(n string) bool {
+			return strings.Contains(n, "certGenHandler#loop1.C01.") || strings.Contains(n, "C01.level-ssh") || strings.Contains(n, "C01.level-x509")
+		},
+		run: func(r *Report, o *Obligation, sr *SolveResult) ReplayResult {
+			out, conf := goReplay(r, "cmd/keymasterd", "keymasterd_replay_test.go", "TestVerifReplayCertLevel", map[string]string{})
+			return ReplayResult{Confirmed: conf, Summary: replaySummary(out), Output: truncate(out, 4000), Driver: "TestVerifReplayCertLevel (the (listed method, session level) space of the model: 7 methods x 22 levels on the real handler)"}
+		},
+	})
+}
